@@ -52,33 +52,13 @@ theorem view_membership (w : World) (mid sid : Nat) (o : Order) :
   simp [List.mem_filter]
 
 /-- C15.2 the only statuses with which an order can be absent from the live list are complete ones:
-    the simulation loop's per-order step removes an order from the live list only if it is (or has
-    just been made) complete -/
-def loopStep (mid : Nat) (w : World) (oid : Nat) : World :=
-  let o := w.order! oid
-  if o.complete then w.blotterComplete mid oid
-  else match o.sim.kind with
-    | .limit =>
-      if o.sim.sizeRemaining = 0 then (w.orderExecutionComplete oid).blotterComplete mid oid else w
-    | _ =>
-      if o.sim.simStatus = .executionComplete then (w.orderExecutionComplete oid).blotterComplete mid oid else w
-
-theorem loopStep_keeps_or_completes (mid : Nat) (w : World) (oid : Nat) :
+    the simulation loop's per-order step (`loopStep`, Lemmas/WorldLemmas.lean) removes an order from the
+    live list only if it is (or has just been made) complete -/
+theorem live_list_loses_only_complete (mid : Nat) (w : World) (oid : Nat) :
     loopStep mid w oid = w ∨
     (w.order! oid).complete = true ∧ loopStep mid w oid = w.blotterComplete mid oid ∨
-    loopStep mid w oid = (w.orderExecutionComplete oid).blotterComplete mid oid := by
-  unfold loopStep
-  simp only
-  by_cases hc : (w.order! oid).complete = true
-  · right; left; simp [hc]
-  · simp only [hc, Bool.false_eq_true, if_false]
-    split
-    · split_ifs
-      · right; right; rfl
-      · left; rfl
-    · split_ifs
-      · right; right; rfl
-      · left; rfl
+    loopStep mid w oid = (w.orderExecutionComplete oid).blotterComplete mid oid :=
+  loopStep_keeps_or_completes mid w oid
 
 theorem statusComplete_ec : statusComplete .executionComplete = true := by decide
 
